@@ -26,8 +26,10 @@ def all_sigs(st):
     return out
 
 
-def make_case(rng, name, sig, desc, big=False):
-    """one request line + checker for an overload"""
+def make_case(rng, name, sig, desc, big=False, alias=None):
+    """one request line + checker for an overload.  alias = [k, o, scalar name, result-array name]: the variant `<name>__as<k>`
+    whose scalar argument is element j of the result array itself (`f(out, out[j], …)`): the designated scalar is the value
+    out[j] holds at the call"""
     W = desc["W"]
     args = {}
     opnds = [desc["out"]] + desc["data"]
@@ -66,12 +68,20 @@ def make_case(rng, name, sig, desc, big=False):
             args[o["name"]] = [gen_word(rng) for _ in range(W)]
         elif o["kind"] == "val":
             args[o["name"]] = gen_word(rng)
+    alias_j = None
+    if alias:
+        outarr = args[alias[3]]
+        alias_j = rng.below(len(outarr)) if rng.below(4) else 0
+        args[alias[2]] = outarr[alias_j]
+        name = "%s__as%d" % (name, alias[0])
     toks = []
     for q in sig["lean_params"]:
         if q["mode"] == "out":
             continue
         v = args[q["name"]]
-        if q["cat"] == "ptr":
+        if alias and q["name"] == alias[2]:
+            toks.append(hx(alias_j))
+        elif q["cat"] == "ptr":
             toks.append("[ " + " ".join(hx(x) for x in v) + " ]")
         elif q["cat"] in ("v4", "v8"):
             toks.append(" ".join(hx(x) for x in v))
@@ -106,7 +116,8 @@ def make_case(rng, name, sig, desc, big=False):
             return True, ""
     strides = sorted(str(args[o["off"][1]]) if o["off"][0] == "off" else "idx" for o in opnds if o["kind"] == "arr" and o["off"])
     tag = "%s|%s" % (name, ",".join(strides))
-    return {"line": line, "key": name, "tag": tag, "expect": expect}
+    return {"line": line, "key": name, "tag": tag, "expect": expect,
+            "note": "scalar argument aliases result element %d" % alias_j if alias else None}
 
 
 def parcopy_cases(rng, tier):
@@ -140,7 +151,7 @@ def run(tier, seed):
                 "array returned so stray writes are seen; parcpy/parSetZero over sizes 0..20,31..100 (thorough: ..4097) x int thread "
                 "counts incl. INT_MIN, negative, 0, > size; distinct = distinct (overload, stride pattern)")
     res.assumptions = ["operand designation is derived from parameter TYPES and NAMES (offset_a/offset_b/offset_c/offsets1/stride...), see tools/wrapspec.py",
-                       "distinct pointer arguments designate non-overlapping memory (Region model); aliasing of wrapper arguments is not covered",
+                       "distinct pointer arguments designate non-overlapping memory (Region model); aliasing of wrapper POINTER arguments is not covered; a scalar argument taken from the result array itself (f(out, out[j], ...)) IS exercised (variants __as<k>: implementation called with the aliased element, model and oracle with its value at the call)",
                        "parcpy/parSetZero: size + num_threads - 1 < 2^64 (the C++ chunk computation would wrap otherwise)"]
     st = run_gen()
     wsinfo = st.get("wrapspec") or {}
@@ -216,6 +227,11 @@ def run(tier, seed):
             reps = per * (10 if n in failing else 1)
             for r in range(reps):
                 cases.append(make_case(rng, n, sg, d, big=(r % 6 == 5)))
+            # call patterns in which the broadcast scalar is an element of the result array (`mul_batch(v, v[0], v)`)
+            for al in sg.get("scalar_alias") or []:
+                if not sg.get("untranslated") and al[2] in [o.get("name") for o in d["data"]] and d["out"].get("name") == al[3]:
+                    for r in range(max(2, reps // 2)):
+                        cases.append(make_case(rng, n, sg, d, big=(r % 6 == 5), alias=al))
         cases += parcopy_cases(rng, tier)
         corr_campaign(res, h, drv, cases, fl)
     # parcpy / parSetZero must transfer exactly `size` elements also when the OpenMP runtime GRANTS fewer members than
